@@ -34,6 +34,7 @@ type retInfo struct {
 	reach   Term
 	results []Val
 	st      *State
+	blk     *ssa.BasicBlock
 }
 
 type loopInfo struct {
@@ -465,11 +466,12 @@ func (u *Unit) declareOnce(name, decl string) {
 // ---- loops --------------------------------------------------------------------------------------
 
 func (u *Unit) enterLoop(fr *Frame, li *loopInfo, st *State, reach Term) (*State, Term) {
+	u.scopeBlk = li.header
 	u.comment(fmt.Sprintf("loop %d of %s", li.ordinal, fr.fn.Name()))
 	// 1. invariants hold on entry
 	if li.spec != nil {
 		for i, inv := range li.spec.Invariants {
-			f := u.evalBool(inv.Expr, u.loopEnv(fr, st))
+			f := u.evalClause(inv.Expr, u.loopEnv(fr, st))
 			u.curWhere = u.W.Fset.Position(li.pos).String()
 			u.oblige("inv", reach, f, fmt.Sprintf("loop%d.inv[%d].init", li.ordinal, i), "", inv.Src)
 		}
@@ -493,7 +495,7 @@ func (u *Unit) enterLoop(fr *Frame, li *loopInfo, st *State, reach Term) (*State
 	// 4. assume user invariants
 	if li.spec != nil {
 		for _, inv := range li.spec.Invariants {
-			f := u.evalBool(inv.Expr, u.loopEnv(fr, st))
+			f := u.evalClause(inv.Expr, u.loopEnv(fr, st))
 			u.assume(reach, f)
 		}
 		if li.spec.Decreases != nil {
@@ -512,8 +514,9 @@ func (u *Unit) backEdge(fr *Frame, li *loopInfo, st *State, cond Term) {
 	if li.spec == nil {
 		return
 	}
+	u.scopeBlk = li.header
 	for i, inv := range li.spec.Invariants {
-		f := u.evalBool(inv.Expr, u.loopEnv(fr, st))
+		f := u.evalClause(inv.Expr, u.loopEnv(fr, st))
 		u.curWhere = u.W.Fset.Position(li.pos).String()
 		u.oblige("inv", cond, f, fmt.Sprintf("loop%d.inv[%d].preserve", li.ordinal, i), "", inv.Src)
 	}
@@ -776,6 +779,9 @@ func (u *Unit) freshVal(st *State, name string, t types.Type) Val {
 
 func (u *Unit) execBlock(fr *Frame, b *ssa.BasicBlock, st *State, reach Term) {
 	for _, in := range b.Instrs {
+		if fr.parent == nil {
+			u.curBlock, u.scopeBlk = b, b
+		}
 		if _, ok := in.(*ssa.Phi); ok {
 			continue
 		}
